@@ -6,11 +6,15 @@ open Primaite Primaite.Agents
     p-init  <periodic|dm> start startVar freq var maxExec nNodes d0        → ok <next> | raised
     p-step  t d k                                                          → nothing|exec <k>|raised  <next> <num>
     prob    <ins|key> nActions uNum uDen k:w,k:w,…                          → chose <i> | raised
-    t1-init start freq var rkc rst pPn pPd pCn pCd pYn pYd attempts repeatScan nAddr exfil corrupt cont d0
-    t1-step t d1 d2 uN uD dScan ok hostsEmpty containsTarget hasPg          → <kind> <host> <tgt> | <cur> <nxt> <prog> <concluded> <nextExec>
+    probn   <ins|key> nActions den uNum uDen k:w,…  (w ∈ ℤ, p = w/den)       → chose <i> | raised | rejected
+    t1-init start freq var rkc rst pPn pPd pCn pCd pYn pYd attempts repeatScan exfil corrupt cont d0 k1 k2
+            startingNodes defaultStartingNode targetIps defaultTargetIp networkAddresses
+            c2Server c2Ip keepAlive masqPort masqProto exfilFolder targetUser targetPass      (lists: a,b,c or -)
+    t1-step t d1 d2 uN uD dScan ok hostsEmpty containsTarget hasPg          → <name> key=value … | <cur> <nxt> <prog> <concluded> <nextExec>
     rand    nActions k                                                      → chose <k> | raised
-    t3-init start freq var rkc rst pPn pPd pAn pAd pMn pMd pEn pEd startNode accts acls creds d0
-    t3-step t d1 uN uD ok hasReason hasLoginData                            → <kind> <host> | <cur> <nxt> <prog> <concluded> <nextExec>
+    t3-init start freq var rkc rst pPn pPd pAn pAd pMn pMd pEn pEd d0 k startingNodes defaultStartingNode
+            accts(host:user:newpw,…) acls(router:f1:…:f9,…) creds(host:user:pw:ip|~,…)
+    t3-step t d1 uN uD ok hasReason hasLoginData                            → <name> key=value … | <cur> <nxt> <prog> <concluded> <nextExec>
 -/
 
 structure DState where
@@ -33,6 +37,15 @@ def csvPairs (s : String) : Option (List (Nat × Nat)) :=
     | [some a, some b] => some (a, b)
     | _ => none
 
+def csvIntPairs (s : String) : Option (List (Nat × Int)) :=
+  if s = "-" then some [] else
+  (s.splitOn ",").mapM fun e =>
+    match e.splitOn ":" with
+    | [a, b] => match a.toNat?, b.toInt? with
+      | some a, some b => some (a, b)
+      | _, _ => none
+    | _ => none
+
 def tb (n : Int) : Bool := n ≠ 0
 
 def showProg (p : Progress) : String := p.name
@@ -46,12 +59,13 @@ def showKind1 : Tap1.Kind → String
   | .exfiltrate => "c2-server-data-exfiltrate" | .ransomwareLaunch => "c2-server-ransomware-launch"
   | .pingScan => "node-nmap-ping-scan" | .portScan => "node-nmap-port-scan" | .reconScan => "node-network-service-recon"
 
-def showHost1 : Tap1.HostRef → String | .start => "start" | .c2server => "c2"
-def showTgt1 : Option Tap1.Target → String
-  | none => "-" | some (.addr i) => s!"addr{i}" | some .hosts => "hosts" | some .target => "target"
+def showPVal1 : Tap1.PVal → String
+  | .str v => v | .hosts => "<hosts>" | .bool b => if b then "True" else "False"
 
-def showAct1 (a : Tap1.Act) : String :=
-  if a.kind = .doNothing then "do-nothing - -" else s!"{showKind1 a.kind} {showHost1 a.host} {showTgt1 a.tgt}"
+/-- the rendered action: `name key=value …` (`do-nothing -` for the idle action) -/
+def showAct1 (c : Tap1.Cfg) (s : Tap1.St) (a : Tap1.Act) : String :=
+  let r := a.render c s
+  if r.2.isEmpty then s!"{r.1} -" else s!"{r.1} " ++ " ".intercalate (r.2.map fun kv => s!"{kv.1}={showPVal1 kv.2}")
 
 def showSt1 (s : Tap1.St) : String :=
   s!"{showStage1 s.cur} {showStage1 s.nxt} {showProg s.prog} {showBool s.concluded} {s.nextExec}"
@@ -62,8 +76,12 @@ def showKind3 : Tap3.Kind → String
   | .doNothing => "do-nothing" | .changePwLocal => "node-account-change-password" | .remoteLogin => "node-session-remote-login"
   | .remoteChangePw => "node-send-remote-command:change_password" | .remoteAcl => "node-send-remote-command:add_rule"
 
+def showPVal3 : Tap3.PVal → String
+  | .str v => v | .list vs => ";".intercalate vs
+
 def showAct3 (a : Tap3.Act) : String :=
-  if a.kind = .doNothing then "do-nothing -" else s!"{showKind3 a.kind} {a.host}"
+  let r := a.render
+  if r.2.isEmpty then s!"{r.1} -" else s!"{r.1} " ++ " ".intercalate (r.2.map fun kv => s!"{kv.1}={showPVal3 kv.2}")
 
 def showSt3 (s : Tap3.St) : String :=
   s!"{showStage3 s.cur} {showStage3 s.nxt} {showProg s.prog} {showBool s.concluded} {s.nextExec}"
@@ -71,15 +89,39 @@ def showSt3 (s : Tap3.St) : String :=
 def showPOut : PeriodicOut → String
   | .doNothing => "nothing" | .execute k => s!"exec {k}" | .raised => "raised"
 
-def mkCfg1 (start f v rkc rst ppn ppd pcn pcd pyn pyd att rsc na ex co cont : Int) : Tap1.Cfg :=
-  { startStep := start, frequency := f, variance := v, repeatKillChain := tb rkc, repeatStages := tb rst,
-    pPropagate := ⟨ppn, ppd.toNat⟩, pC2 := ⟨pcn, pcd.toNat⟩, pPayload := ⟨pyn, pyd.toNat⟩, scanAttempts := att.toNat,
-    repeatScan := tb rsc, nAddr := na.toNat, exfiltrate := tb ex, corrupt := tb co, continueOnFailedExfil := tb cont }
+def csvStr (s : String) : List String := if s = "-" then [] else s.splitOn ","
 
-def mkCfg3 (start f v rkc rst ppn ppd pan pad pmn pmd pen ped sn : Int) (accts acls : List Nat) (creds : List (Nat × Nat)) : Tap3.Cfg :=
+def mkCfg1 (start f v rkc rst ppn ppd pcn pcd pyn pyd att rsc ex co cont : Int) (strs : List String) : Option Tap1.Cfg :=
+  match strs with
+  | [sn, dsn, ti, dti, addrs, c2s, c2ip, ka, mp, mpr, ef, tu, tp] =>
+    some { startStep := start, frequency := f, variance := v, repeatKillChain := tb rkc, repeatStages := tb rst,
+           pPropagate := ⟨ppn, ppd.toNat⟩, pC2 := ⟨pcn, pcd.toNat⟩, pPayload := ⟨pyn, pyd.toNat⟩, scanAttempts := att.toNat,
+           repeatScan := tb rsc, exfiltrate := tb ex, corrupt := tb co, continueOnFailedExfil := tb cont,
+           startingNodes := csvStr sn, defaultStartingNode := dsn, targetIps := csvStr ti, defaultTargetIp := dti,
+           addrs := csvStr addrs, c2Server := c2s, c2Ip := c2ip, keepAlive := ka, masqPort := mp, masqProto := mpr,
+           exfilFolder := ef, targetUser := tu, targetPass := tp }
+  | _ => none
+
+def parseAccts (s : String) : Option (List Tap3.AcctChange) :=
+  (csvStr s).mapM fun e => match e.splitOn ":" with
+    | [h, u, n] => some { host := h, user := u, newPw := n }
+    | _ => none
+
+def parseAcls (s : String) : Option (List Tap3.Acl) :=
+  (csvStr s).mapM fun e => match e.splitOn ":" with
+    | r :: fs => some { router := r, fields := fs }
+    | _ => none
+
+def parseCreds (s : String) : Option Tap3.Creds :=
+  (csvStr s).mapM fun e => match e.splitOn ":" with
+    | [h, u, p, ip] => some (h, { user := u, pw := p, ip := if ip = "~" then none else some ip })
+    | _ => none
+
+def mkCfg3 (start f v rkc rst ppn ppd pan pad pmn pmd pen ped : Int) (sn : List String) (dsn : String)
+    (accts : List Tap3.AcctChange) (acls : List Tap3.Acl) (creds : Tap3.Creds) : Tap3.Cfg :=
   { startStep := start, frequency := f, variance := v, repeatKillChain := tb rkc, repeatStages := tb rst,
     pPlanning := ⟨ppn, ppd.toNat⟩, pAccess := ⟨pan, pad.toNat⟩, pManipulation := ⟨pmn, pmd.toNat⟩, pExploit := ⟨pen, ped.toNat⟩,
-    startNode := sn.toNat, accountChanges := accts, acls := acls, creds0 := creds.map fun (h, ip) => (h, ip ≠ 0) }
+    startingNodes := sn, defaultStartingNode := dsn, accountChanges := accts, acls := acls, creds0 := creds }
 
 def step (st : DState) : List String → DState × String
   | ["p-init", kind, a1, a2, a3, a4, a5, a6, a7] =>
@@ -107,14 +149,30 @@ def step (st : DState) : List String → DState × String
       | .chose i => (st, s!"chose {i}")
       | .raised => (st, "raised")
     | _, _, _, _ => (st, "bad-op")
+  | ["probn", ord, n, den, un, ud, tb] =>
+    match n.toNat?, den.toNat?, un.toNat?, ud.toNat?, csvIntPairs tb with
+    | some n, some den, some un, some ud, some tb =>
+      let byKey : Option (List Int) := (List.range tb.length).mapM fun i => (tb.find? (·.1 == i)).map (·.2)
+      let covered := (List.range tb.length).all fun i => (tb.find? (·.1 == i)).isSome
+      let ws := if ord = "key" then byKey else some (tb.map (·.2))
+      if ¬ covered ∨ ¬ validatorSumOk den (tb.map (·.2)) then (st, "rejected") else
+      match ws with
+      | none => (st, "raised")
+      | some ws =>
+        match choiceNp n den ws { num := un, den := ud } with
+        | .chose i => (st, s!"chose {i}")
+        | .raised => (st, "raised")
+    | _, _, _, _, _ => (st, "bad-op")
   | "t1-init" :: args =>
-    match ints args with
-    | some [start, f, v, rkc, rst, ppn, ppd, pcn, pcd, pyn, pyd, att, rsc, na, ex, co, cont, d0] =>
-      let cfg := mkCfg1 start f v rkc rst ppn ppd pcn pcd pyn pyd att rsc na ex co cont
-      match Tap1.init cfg d0 with
-      | some s => ({ st with c1 := some cfg, s1 := some s }, s!"ok {showSt1 s}")
-      | none => ({ st with c1 := none, s1 := none }, "raised")
-    | _ => (st, "bad-op")
+    match ints (args.take 19), args.drop 19 with
+    | some [start, f, v, rkc, rst, ppn, ppd, pcn, pcd, pyn, pyd, att, rsc, ex, co, cont, d0, k1, k2], strs =>
+      match mkCfg1 start f v rkc rst ppn ppd pcn pcd pyn pyd att rsc ex co cont strs with
+      | some cfg =>
+        match Tap1.init cfg d0 k1.toNat k2.toNat with
+        | some s => ({ st with c1 := some cfg, s1 := some s }, s!"ok {s.startNode} {s.targetIp} {showSt1 s}")
+        | none => ({ st with c1 := none, s1 := none }, "raised")
+      | none => (st, "bad-op")
+    | _, _ => (st, "bad-op")
   | "t1-step" :: args =>
     match st.c1, st.s1, ints args with
     | some cfg, some s, some [t, d1, d2, un, ud, ds, ok, he, ct, pg] =>
@@ -122,7 +180,7 @@ def step (st : DState) : List String → DState × String
                            resp := { ok := tb ok, hostsEmpty := tb he, containsTarget := tb ct, hasPg := tb pg } }
       let (s', o) := Tap1.step cfg s t i
       match o with
-      | .act a => ({ st with s1 := some s' }, s!"{showAct1 a} | {showSt1 s'}")
+      | .act a => ({ st with s1 := some s' }, s!"{showAct1 cfg s' a} | {showSt1 s'}")
       | .raised => ({ st with s1 := some s' }, "raised")
     | _, _, _ => (st, "bad-op")
   | ["rand", n, k] =>
@@ -132,12 +190,12 @@ def step (st : DState) : List String → DState × String
       | .chose i => (st, s!"chose {i}")
       | .raised => (st, "raised")
     | _, _ => (st, "bad-op")
-  | ["t3-init", start, f, v, rkc, rst, ppn, ppd, pan, pad, pmn, pmd, pen, ped, sn, accts, acls, creds, d0] =>
-    match ints [start, f, v, rkc, rst, ppn, ppd, pan, pad, pmn, pmd, pen, ped, sn, d0], csvNat accts, csvNat acls, csvPairs creds with
-    | some [start, f, v, rkc, rst, ppn, ppd, pan, pad, pmn, pmd, pen, ped, sn, d0], some accts, some acls, some creds =>
-      let cfg := mkCfg3 start f v rkc rst ppn ppd pan pad pmn pmd pen ped sn accts acls creds
-      match Tap3.init cfg d0 with
-      | some s => ({ st with c3 := some cfg, s3 := some s }, s!"ok {showSt3 s}")
+  | ["t3-init", start, f, v, rkc, rst, ppn, ppd, pan, pad, pmn, pmd, pen, ped, d0, k, sn, dsn, accts, acls, creds] =>
+    match ints [start, f, v, rkc, rst, ppn, ppd, pan, pad, pmn, pmd, pen, ped, d0, k], parseAccts accts, parseAcls acls, parseCreds creds with
+    | some [start, f, v, rkc, rst, ppn, ppd, pan, pad, pmn, pmd, pen, ped, d0, k], some accts, some acls, some creds =>
+      let cfg := mkCfg3 start f v rkc rst ppn ppd pan pad pmn pmd pen ped (csvStr sn) dsn accts acls creds
+      match Tap3.init cfg d0 k.toNat with
+      | some s => ({ st with c3 := some cfg, s3 := some s }, s!"ok {s.startNode} {showSt3 s}")
       | none => ({ st with c3 := none, s3 := none }, "raised")
     | _, _, _, _ => (st, "bad-op")
   | "t3-step" :: args =>
